@@ -9,7 +9,7 @@ import z3
 from .mirparse import (MirFile, Fn, Place, Unsupported, INT_TYPES, split_path, split_top, strip_generics,
                        find_matching, find_top, unescape, parse_rvalue, parse_stmt, parse_term)
 from .values import *
-from . import ops
+from . import ops, portfolio
 from .ops import is_sym
 
 
@@ -154,8 +154,10 @@ class Engine:
         o = opts or {}
         self.max_steps = o.get('max_steps', 2_000_000)
         self.max_depth = o.get('max_depth', 400)
-        self.query_timeout_ms = o.get('query_timeout_ms', 60_000)
+        self.query_timeout_ms = int(os.environ.get('MIRSYM_QUERY_MS', o.get('query_timeout_ms', 60_000)))
         self.fast_timeout_ms = int(os.environ.get('MIRSYM_FAST_MS', o.get('fast_timeout_ms', 500)))
+        self.fallback_timeout_ms = int(os.environ.get('MIRSYM_FALLBACK_MS', o.get('fallback_timeout_ms', 10_000)))
+        self.use_portfolio = os.environ.get('MIRSYM_PORTFOLIO', '1') != '0'
         self.model_solver = None
         self.div_lemma = bool(os.environ.get('MIRSYM_DIV_LEMMA'))   # experimental (C21 probe only)
         self.solver = z3.Solver()
@@ -207,9 +209,11 @@ class Engine:
 
     # ------------------------------------------------------------------ solver
     def check_sat(self, c, kind='q_branch'):
-        """decide pc /\ c.  First the incremental solver under a short cap; if that does not answer,
-        a fresh non-incremental solver (z3's tactic pipeline: simplify + bit-blast + SAT) under the full
-        cap.  `unknown` after both is Inconclusive, never an answer."""
+        """decide pc /\\ c.  First the incremental solver under a short cap; if that does not answer,
+        a fresh non-incremental solver (z3's tactic pipeline: simplify + bit-blast + SAT) under a medium
+        cap; if that does not answer either, the solver portfolio (mirsym/portfolio.py: cvc5, z3 4.8.12 and
+        a bit-blasting z3 5.1 in parallel on the printed query, `sat` re-established in process) under the
+        full cap.  `unknown` after all three is Inconclusive, never an answer."""
         t = time.time()
         self.solver.set('timeout', self.fast_timeout_ms)
         r = self.solver.check(c) if c is not None else self.solver.check()
@@ -217,7 +221,7 @@ class Engine:
         if r == z3.unknown:
             self.stats['fallback'] = self.stats.get('fallback', 0) + 1
             s2 = z3.Solver()
-            s2.set('timeout', self.query_timeout_ms)
+            s2.set('timeout', self.fallback_timeout_ms)
             # NOT self.solver.assertions(): after a check() that timed out z3 5.1 can hand back a
             # preprocessed assertion set (observed: models of the copy violate the original constraints)
             s2.add(self.pc)
@@ -225,6 +229,14 @@ class Engine:
                 s2.add(c)
             r = s2.check()
             self.model_solver = s2
+            if r == z3.unknown and self.use_portfolio:
+                self.stats['portfolio'] = self.stats.get('portfolio', 0) + 1
+                r, s3, who = portfolio.decide(list(self.pc) + ([c] if c is not None else []),
+                                              self.query_timeout_ms, self.stats)
+                if who:
+                    self.stats['portfolio_by_' + who] = self.stats.get('portfolio_by_' + who, 0) + 1
+                if s3 is not None:
+                    self.model_solver = s3
         dt = time.time() - t
         self.stats['solver_s'] += dt
         self.stats[kind] += 1
@@ -240,10 +252,10 @@ class Engine:
             try:
                 os.makedirs(dd, exist_ok=True)
                 with open(os.path.join(dd, 'unknown-%d-%d.smt2' % (os.getpid(), self.stats['unknown'])), 'w') as fh:
-                    fh.write(self.model_solver.to_smt2())
+                    fh.write(s2.to_smt2())
             except Exception:
                 pass
-        raise Inconclusive('solver returned unknown (%s) after %.1fs' % (self.model_solver.reason_unknown(), dt))
+        raise Inconclusive('solver returned unknown (%s) after %.1fs' % (s2.reason_unknown(), dt))
 
     def model(self):
         """model of the last satisfiable query"""
